@@ -88,6 +88,8 @@ func writeQueryExtra(dir string, idx int, o *Obligation, forCVC bool, extra []st
 }
 
 // discharge runs all obligations; quick: z3-new first then the others; thorough: all three.
+var nPolished int
+
 func discharge(obls []*Obligation, dir string, jobs, timeoutMs int, thorough bool, keepFailed string) float64 {
 	os.MkdirAll(dir, 0o755)
 	var wg sync.WaitGroup
@@ -152,8 +154,13 @@ func discharge(obls []*Obligation, dir string, jobs, timeoutMs int, thorough boo
 						break
 					}
 				}
-				// a nicer (realisable) model: all preferences, then each prefix
-				for n := len(o.Prefer); n > 0 && o.Expect == "unsat"; n-- {
+				// a nicer (realisable) model: all preferences, then each prefix (only for the first failures: a
+				// tree with hundreds of failing obligations does not need a polished model for each)
+				mu.Lock()
+				nPolished++
+				polish := nPolished <= 24
+				mu.Unlock()
+				for n := len(o.Prefer); polish && n > 0 && o.Expect == "unsat"; n-- {
 					pf := writeQueryExtra(dir, i, o, false, o.Prefer[:n], fmt.Sprintf(".pref%d", n))
 					pr := runSolver("z3-new", pf, timeoutMs)
 					os.Remove(pf)
